@@ -55,6 +55,8 @@ class Acc:
             self.ob("unknown", name, key)
             return r
         m = self.P.shaped_model([*conds, z3.Not(goal), *shape_extra], list(case.vars.values()))
+        if m is None and shape_extra:
+            m = self.P.shaped_model([*conds, z3.Not(goal)], list(case.vars.values()))
         if m is None:
             self.ob("unknown", name + "(real-model-only)", key)
             return "unknown"
